@@ -77,19 +77,29 @@ def appended(fn, b, listname):
 
 def ret_names(fn):
     rets = [s for s in cfg_of(fn).all_stmts() if isinstance(s, ast.Return) and s.value is not None]
-    if len(rets) != 1 or not isinstance(rets[0].value, ast.Tuple) or len(rets[0].value.elts) != 3:
+    if len(rets) != 1:
         raise AnalysisError(f"{fn.qualname}: expected one 'return slices, references, boundaries'")
     return rets[0]
+
+
+def ret_triple(fn, b):
+    """(return statement, [masks, references, boundaries] terms): a tuple display, or the three elements of a returned call result."""
+    ret = ret_names(fn)
+    if isinstance(ret.value, ast.Tuple):
+        if len(ret.value.elts) != 3:
+            raise AnalysisError(f"{fn.qualname}: expected one 'return slices, references, boundaries'")
+        return ret, [b.term(e, ret) for e in ret.value.elts]
+    t = b.term(ret.value, ret)
+    if t[0] == "tuple" and len(t[1]) == 3:
+        return ret, list(t[1])
+    return ret, [IT(t, k) for k in range(3)]
 
 
 def mask_sources(prog, fn, b):
     """Terms of all masks that can end up in the returned list of _slice: comprehension elements and appended masks,
     traced through self._drop_too_small_intervals (which keeps elements, C10.drop)."""
-    ret = ret_names(fn)
-    first = ret.value.elts[0]
-    if not isinstance(first, ast.Name):
-        raise AnalysisError(f"{fn.qualname}: returned masks are not a local name")
-    t = b.term(first, ret)
+    ret, (t, _r, _b) = ret_triple(fn, b)
+    first = ret.value.elts[0] if isinstance(ret.value, ast.Tuple) else None
     out = []
     if t[0] == "sub" and t[2][0] == "const" and t[1][0] == "call" and t[1][1] == ("attr", SELF, "_drop_too_small_intervals"):
         src = t[1][2][t[2][1]] if isinstance(t[2][1], int) and t[2][1] < len(t[1][2]) else None
@@ -109,9 +119,10 @@ def mask_sources(prog, fn, b):
     # appended masks: find the local list name(s) passed into the drop call
     names = set()
     for st in cfg_of(fn).all_stmts():
-        if isinstance(st, ast.Assign) and isinstance(st.value, ast.Call) and isinstance(st.value.func, ast.Attribute) and st.value.func.attr == "_drop_too_small_intervals":
-            if st.value.args and isinstance(st.value.args[0], ast.Name):
-                names.add(st.value.args[0].id)
+        dc = st.value if isinstance(st, (ast.Assign, ast.Return, ast.Expr)) else None
+        if isinstance(dc, ast.Call) and isinstance(dc.func, ast.Attribute) and dc.func.attr == "_drop_too_small_intervals":
+            if dc.args and isinstance(dc.args[0], ast.Name):
+                names.add(dc.args[0].id)
     if isinstance(first, ast.Name):
         names.add(first.id)
     for nm in names:
@@ -188,6 +199,16 @@ def parse_mask(m, data=DATA):
     return lo[0], lo[1], up[0], up[1]
 
 
+def mask_alts(m):
+    """[(literals, mask)]: the mask itself, or - when the operators are chosen by flags inside the expression
+    ((data >= lo) if incl else (data > lo)) - one alternative per consistent choice."""
+    if parse_mask(m) is not None:
+        return [((), m)]
+    from vstat.terms import guarded_alts
+    out = [(tuple(l), mm) for l, mm in guarded_alts(m) if parse_mask(mm) is not None]
+    return out or [((), m)]
+
+
 def edge_pair(lower, upper):
     """lower = E[a:b][k], upper = E[a+1:b+1][k]  ->  (E, a, b) else None."""
     if lower[0] == "sub" and upper[0] == "sub" and lower[2] == upper[2] and lower[2][0] == "idx":
@@ -230,8 +251,9 @@ def width_slicer(prog, rep):
     seen = {True: False, False: False}
     for st, _nm, tv in b.list_values():
         # one comprehension per orientation (or the loop that appends one mask per interval), chosen by if/else statements or by one conditional expression
-        for lits_, t in top_alts(tv):
-            pm = parse_mask(t[2]) if t[0] == "comp" else None
+        for lits0_, t, elt in [(l0 + l1, t_, e_) for l0, t_ in top_alts(tv) if t_[0] == "comp" for l1, e_ in mask_alts(t_[2])]:
+            lits_ = lits0_
+            pm = parse_mask(elt)
             if pm is None:
                 continue
             lo, loi, up, upi = pm
@@ -261,10 +283,9 @@ def width_slicer(prog, rep):
     for br, s in seen.items():
         if not s:
             rep.fail("C10.ops", f"{q}:{'right_open' if br else 'left_open'}", fn.where(), "no interval masks found for this orientation")
-    ret = ret_names(fn)
+    ret, (_mt, ref_t, bt) = ret_triple(fn, b)
     if E not in (None, "mismatch"):
         # boundaries
-        bt = b.term(ret.value.elts[2], ret)
         bsrc = bt[1][2][2] if bt[0] == "sub" and bt[2][0] == "const" and bt[1][0] == "call" and len(bt[1][2]) == 3 else bt
         rep.check(is_edge_pairs(bsrc, E), "C10.bounds", f"{q}:boundaries", fn.where(ret), "boundaries = zip(E[:-1], E[1:]) of the masks' edge array",
                   f"reported boundaries must be the (lower, upper) pairs of the same edge sequence the masks use; found {show(bsrc)[:160]}")
@@ -274,8 +295,6 @@ def width_slicer(prog, rep):
         C = None
         if E[0] == "call" and E[1] == G("numpy.append") and len(E[2]) == 2:
             lows, last = E[2]
-            for cand in alts(b.term(ret.value.elts[1], ret)[1][2][1]) if b.term(ret.value.elts[1], ret)[0] == "item" else []:
-                pass
             # C is whatever satisfies lows == C - w/2
             if lows[0] == "bin" and lows[1] == "-" and algebra.same(lows[3], half):
                 C = lows[2]
@@ -290,7 +309,6 @@ def width_slicer(prog, rep):
             rep.check(okg, "C10.refs", f"{q}:centres", fn.where(), "C = arange(min, max + w, w) + w/2",
                       f"centres must be arange(min, max + width, width) + width/2; found {show(C)[:200]}")
             # reference shifts
-            refname = ret.value.elts[1].id if isinstance(ret.value.elts[1], ast.Name) else None
             shifts = {}
             cfg = cfg_of(fn)
             for st in cfg.all_stmts():
@@ -354,7 +372,8 @@ def number_slicer(prog, rep):
                 for lits, mm in guarded_alts(m):
                     sources.append((kind, holder, mm, tuple(lits)))
         else:
-            sources.append((kind, holder, m, ()))
+            for lits, mm in mask_alts(m):
+                sources.append((kind, holder, mm, tuple(lits)))
     for kind, holder, m, lits in sources:
         pm = parse_mask(m)
         if pm is None:
@@ -389,9 +408,8 @@ def number_slicer(prog, rep):
                       f"the last interval must continue the edge sequence: (E[-2], E[-1]); found lower={show(lo)[:80]} upper={show(up)[:80]}")
     if not comp_seen:
         rep.fail("C10.ops", f"{q}:inner", fn.where(), "no comprehension of inner interval masks found")
-    ret = ret_names(fn)
+    ret, (_mt, rt_ret, bt) = ret_triple(fn, b)
     if E is not None:
-        bt = b.term(ret.value.elts[2], ret)
         bsrc = bt[1][2][2] if bt[0] == "sub" and bt[2][0] == "const" and bt[1][0] == "call" and len(bt[1][2]) == 3 else bt
         rep.check(is_edge_pairs(bsrc, E), "C10.bounds", f"{q}:boundaries", fn.where(ret), "boundaries = zip(E[:-1], E[1:]) of the masks' edge array",
                   f"reported boundaries must be the pairs of the same edge sequence the masks use; found {show(bsrc)[:160]}")
@@ -409,14 +427,15 @@ def number_slicer(prog, rep):
         rep.check(ok, "C10.refs", f"{q}:edges", fn.where(), "E = append(linspace(v0, v1, n_intervals, endpoint=False), v1)",
                   f"the edge array must be the n_intervals equally spaced starts of (v0, v1) followed by v1 itself; found {show(E)[:220]}")
         if ok:
-            rt = b.term(ret.value.elts[1], ret)
+            rt = rt_ret
             rsrc = rt[1][2][1] if rt[0] == "sub" and rt[2][0] == "const" and rt[1][0] == "call" and len(rt[1][2]) == 3 else rt
             rd = rd_of(fn)
             refname = None
             for st in cfg_of(fn).all_stmts():
-                if isinstance(st, ast.Assign) and isinstance(st.value, ast.Call) and isinstance(st.value.func, ast.Attribute) and st.value.func.attr == "_drop_too_small_intervals":
-                    if isinstance(st.value.args[1], ast.Name):
-                        refname = st.value.args[1].id
+                dc = st.value if isinstance(st, (ast.Assign, ast.Return)) else None
+                if isinstance(dc, ast.Call) and isinstance(dc.func, ast.Attribute) and dc.func.attr == "_drop_too_small_intervals":
+                    if len(dc.args) > 1 and isinstance(dc.args[1], ast.Name):
+                        refname = dc.args[1].id
                         at = st
             want = {"center": ("bin", "+", starts, ("bin", "*", ("const", 0.5), width)), "right": ("bin", "+", starts, width), "left": starts}
             got = {}
@@ -569,8 +588,10 @@ def minimum(prog, rep):
         ifnode = cfg.node(cfg.enclosing(good)[-1][0])
         rep.check(all(cfg.dominates(ifnode, cfg.node(r)) for r in rets), "C10.min", f"{q}:dominates", fn.where(),
                   "the size test dominates every return", "the interval-count test must be on every path to the return")
-    okr = len(rets) == 1 and isinstance(rets[0].value, ast.Tuple) and b.term(rets[0].value.elts[0], rets[0]) == IT(sl, 0) \
-        and b.term(rets[0].value.elts[2], rets[0]) == IT(sl, 2)
+    okr = len(rets) == 1
+    if okr:
+        _r, (m_t, _ref_t, b_t) = ret_triple(fn, b)
+        okr = m_t == IT(sl, 0) and b_t == IT(sl, 2)
     rep.check(okr, "C10.min", f"{q}:returns", fn.where(), "returns the masks and boundaries of _slice(data) unchanged",
               "slice_ must return the masks and boundaries computed by _slice(data)")
 
@@ -617,14 +638,19 @@ def ppi(prog, rep):
                         and isinstance(st.value.func.value, ast.Name) and st.value.func.value.id == tgt and set(pcs.of(st)) == set(pcs.of(c[0])):
                     args = [b.term(a, st) for a in st.value.args]
                     found = (args == [("const", 0), piece]) if meth == "insert" else (args == [piece])
+            # ... or by list concatenation: [piece] + chunks / chunks + [piece], on the same branch
+            cat = ("bin", "+", ("list", (piece,)), c[1]) if meth == "insert" else ("bin", "+", c[1], ("list", (piece,)))
+            for st in cfg.all_stmts():
+                if isinstance(st, ast.Assign) and isinstance(st.value, ast.BinOp) and b.term(st.value, st) == cat and set(pcs.of(st)) == set(pcs.of(c[0])):
+                    found = True
             rep.check(found, "C10.ppi", inst + ":remainder", fn.where(c[0]), f"remainder chunk {show(piece)[:50]} placed {'first' if meth == 'insert' else 'last'}",
                       f"the remainder chunk {show(piece)[:60]} must be {'inserted first' if meth == 'insert' else 'appended last'} ({'last_full' if meth == 'insert' else 'not last_full'})")
     # masks: membership of the POSITION in the chunk - a mask that sees the chunk only through the values data[chunk]
     # (np.isin(data, data[idc])) cannot tell tied observations apart and puts a tie across a chunk boundary in two intervals
     rets = [s for s in cfg.all_stmts() if isinstance(s, ast.Return)]
     mt = None
-    if len(rets) == 1 and isinstance(rets[0].value, ast.Tuple) and rets[0].value.elts:
-        mt = b.term(rets[0].value.elts[0], rets[0])
+    if len(rets) == 1:
+        mt = ret_triple(fn, b)[1][0]
     # the comprehension over the chunks (possibly behind _drop_too_small_intervals(...)[0])
     comps = [s_ for s_ in walk(mt)] if mt is not None else []
     comps = [s_ for s_ in comps if s_[0] == "comp" and s_[1] == "list" and isinstance(s_[5], tuple) and (not s_[5] or s_[5][0] != "nested")
